@@ -218,7 +218,7 @@ class AbsFile(io.IOBase):
         return False
 
     def __getattr__(self, name):
-        if name.startswith("_") or name in ("name", "preset", "csv_rows", "avro", "outer", "errors"):
+        if name.startswith("_") or name in ("name", "preset", "csv_rows", "avro", "outer", "errors", "newline"):
             raise AttributeError(name)
         raise Unsupported(f"file method {name!r} is outside the file model")
 
